@@ -20,6 +20,7 @@ import (
 	"io"
 	"os"
 	"sort"
+	"strings"
 	"sync"
 
 	"github.com/go-faster/errors"
@@ -499,6 +500,9 @@ func evalDownload(w wDL) kit.Result {
 		label += "+event"
 	}
 	if err != nil {
+		if os.Getenv("VERIF_C34_DEBUG") != "" {
+			fmt.Fprintf(os.Stderr, "C34 debug: %+v -> error: %v\n", w, err)
+		}
 		switch {
 		case errors.Is(err, downloader.ErrHashMismatch):
 			return kit.OKo(label + " -> rejected:hash-mismatch")
@@ -527,9 +531,23 @@ func evalDownload(w wDL) kit.Result {
 	for first < len(got) && first < len(want) && got[first] == want[first] {
 		first++
 	}
-	return kit.Bad(w.Mode+":"+fk+":delivered-"+what,
-		"download reported success but the output (%d bytes) is not the genuine file (%d bytes): first difference at byte %d; data requests seen (offset,limit): %v",
-		len(got), len(want), first, clipReqs(s.reqLog))
+	// class = mode + kind of adversarial answer that got through (stable under goroutine scheduling; what exactly
+	// was delivered — truncated / extended / corrupted — can depend on it in parallel mode and is in the message)
+	group := "honest-run-wrong-bytes"
+	switch {
+	case strings.HasPrefix(fk, "flip-"):
+		group = "bit-flip-accepted"
+	case strings.HasPrefix(fk, "trunc-"):
+		group = "short-answer-accepted"
+	case strings.HasPrefix(fk, "extend-"):
+		group = "long-answer-accepted"
+	case strings.HasPrefix(fk, "swap-"):
+		group = "foreign-chunk-accepted"
+	}
+	return kit.Bad(w.Mode+":"+group,
+		"adversarial action %q on the answer to the data request at offset %d: download reported success but delivered a %s file: output %d bytes, genuine file %d bytes, "+
+			"first difference at byte %d; data requests seen (offset,limit): %v",
+		w.Fault, w.FaultOffset, what, len(got), len(want), first, clipReqs(s.reqLog))
 }
 
 func clipReqs(r [][2]int64) [][2]int64 {
@@ -574,7 +592,7 @@ func main() {
 			"4 KiB aligned, divides 1 MiB and stays inside one MiB. family decrypt: (*cdn).decrypt vs a reference AES-256-CTR (IV tail = offset/16 BE) for " +
 			"offsets up to 4 GiB x lengths {1,15,16,17,4096,4097} x IV patterns {zero,ff,stream}. family download: modes {CDN with inline verification, CDN with " +
 			"WithVerify(true), master with WithVerify(true)} x sinks {stream, parallel 1, parallel 3 threads} x (part size, hash window) in " +
-			"{(8K,4K),(4K,8K),(8K,8K),(12K,8K),(16K,4K irregular)} x sizes {0,100,ps,ps+100,3ps,3ps+4196,6ps+100} x last-window limit {actual, nominal} x protocol event " +
+			"{(8K,4K),(4K,8K),(8K,8K),(12K,8K),(16K,4K irregular); thorough also (512K,128K),(64K,128K) with sizes {ps+100,3ps+4196}} x sizes {0,100,ps,ps+100,3ps,3ps+4196,6ps+100} x last-window limit {actual, nominal} x protocol event " +
 			"{none; thorough: token refresh with new key, reupload-needed, late redirect, master fallback, fingerprint miss} x (one adversarial action from " +
 			"{bit flip first/mid/last, truncate by 1/16/to 4 KiB/to a hash-window boundary/to 0, extend by 1/16 garbage bytes/by 4 KiB of genuine data, answer with another " +
 			"chunk's plaintext / ciphertext} on the k-th answer to each data request offset seen in the honest run). distinct = distinct witnesses; runs in which " +
@@ -623,19 +641,25 @@ func main() {
 		events := []string{""}
 		if c.Thorough() {
 			events = append(events, "token", "reupload", "late-redirect", "fallback", "fingerprint")
+			// production-like geometry: 128 KiB hash windows with the default 512 KiB parts and with 64 KiB parts
+			geos = append(geos, geo{512 * kib, 128 * kib, false}, geo{64 * kib, 128 * kib, false})
 		}
 		var ws []wDL
 		for _, mode := range []string{"cdn-inline", "cdn-verified", "master-verified"} {
 			for _, g := range geos {
 				p := int64(g.ps)
-				for _, size := range []int64{0, 100, p, p + 100, 3 * p, 3*p + 4196, 6*p + 100} {
+				sizes := []int64{0, 100, p, p + 100, 3 * p, 3*p + 4196, 6*p + 100}
+				if g.ps >= 64*kib {
+					sizes = []int64{p + 100, 3*p + 4196}
+				}
+				for _, size := range sizes {
 					for _, nominal := range []bool{false, true} {
 						for _, ev := range events {
 							if ev != "" && mode == "master-verified" {
 								continue
 							}
 							evOff := int64(0)
-							if size > p {
+							if ev != "" && size > p {
 								evOff = p
 								if mode == "cdn-verified" {
 									evOff = int64(g.win)
